@@ -393,6 +393,10 @@ class RaceRun:
         try:
             self.w = w
             self.p = w.mk_provider()
+            if mode.endswith('-noctx'):
+                # the provider leaves the context states out of GetMdib: the consumer fetches them with a second request
+                self.p.contextstates_in_getmdib = False
+                mode = mode[:-6]
             self.c = w.mk_consumer(self.p)
             from sdc11073.mdib.consumermdib import ConsumerMdib
             self.m = ConsumerMdib(self.c)
@@ -475,6 +479,9 @@ RACE_SCENARIOS = [
     ('reload', ['create-metric', 'metric(N1,1)']),
     ('reload', ['update-descr+state(N1)']),
     ('init', ['delete(N2)']),
+    ('init-noctx', ['metric(N1,1)']),
+    ('reload-noctx', ['location(1)']),
+    ('init-noctx', ['patient-new(A)', 'metric(N1,1)']),
 ]
 
 
@@ -553,6 +560,7 @@ def run(ctx):
     if ctx.quick:
         rjobs = [(s, 1, 3000, False) for s in RACE_SCENARIOS[:8]] + [(RACE_SCENARIOS[1], 2, 3000, False)]
         rjobs += [(s, 1, 3000, 'lines') for s in RACE_SCENARIOS[1:2]]
+        rjobs += [(s, 1, 3000, False) for s in RACE_SCENARIOS[10:12]]
     else:
         # the cap is per subtree group (see sched.run_partitioned): budgets chosen for about a quarter of an hour
         rjobs = [(s, 3 if len(s[1]) == 1 else 2, 1500, False) for s in RACE_SCENARIOS]
